@@ -20,9 +20,9 @@ CLAIM = {
           'the claim quantifies over 2^32 words and all doubles.'),
  'note': ('Trusted: Lean kernel; model<->code correspondence on the cases of the run; CPython int/float arithmetic, '
           'math.ldexp/frexp, struct and the C compiler are modelled (assumed exact where the result is representable). '
-          'Code 50 (F8), RepCode.readBytes(70) of negative values and the negative clamp of to68 are defects of the '
-          'code: proved only in the partial form stated in Props.lean, negations proved on witnesses, registered as '
-          'known findings. VSINGL follows the repository/RP66V1 printed vector (DESIGN F9), not VAX hardware.'),
+          'Code 50 (F8) and the negative clamp of to68 are defects of the code: proved only in the partial form '
+          'stated in Props.lean, negations proved on witnesses, registered as known findings (RepCode.readBytes(70) of '
+          'negative values was a third one; it is fixed in /repo and any recurrence is an unlisted violation). VSINGL follows the repository/RP66V1 printed vector (DESIGN F9), not VAX hardware.'),
  'technique': 'Lean 4 proof (bit-field arithmetic, omega, decide) + 3-way model-implementation correspondence',
  'design_ref': 'DESIGN.md section 6 C07',
 }
@@ -42,9 +42,15 @@ TRUSTED = ['modelled, not verified: CPython int &,|,>>, int(), float arithmetic 
            '(the rebuilt binaries are compared with the model on every run)',
            'harness/gen/c07_ref.py: the independent reference written from the standards']
 
-F8 = 'F8'
-F_RB70 = 'C07-readBytes70-negative'
+F8 = 'F8-from50-exponent-mask'
 F_TO68MIN = 'C07-to68-negative-clamp'
+
+# the sources the Lean model transcribes (fingerprinted by core.check_anchors)
+ANCHOR_FILES = ['src/TotalDepth/LIS/core/pRepCode.py', 'src/TotalDepth/LIS/core/RepCode.py',
+                'src/TotalDepth/LIS/core/src/cython/cRepCode.pyx', 'src/TotalDepth/LIS/core/src/cpp/LISRepCode.cpp',
+                'src/TotalDepth/LIS/core/src/cpp/LISRepCode.h', 'src/TotalDepth/LIS/core/src/cp/cpLISRepCode.cpp',
+                'src/TotalDepth/RP66V1/core/pRepCode.py', 'src/TotalDepth/RP66V1/core/pFile.py',
+                'src/TotalDepth/BIT/ReadBIT.py']
 
 _M = {}          # modules, filled by _setup (inherited by forked workers)
 
@@ -177,8 +183,6 @@ def _lis_oracle(rc, u, path, arg, got, expected):
     finding = None
     if rc == 50 and R.in_class_F8(u) and got.startswith(('f ', 'nz')):
         finding = F8
-    elif rc == 70 and got == 'err OverflowError' and u >> 31 and (path == 'readBytes' or (path == 'c' and arg < 0)):
-        finding = F_RB70
     return (f'code {rc} word 0x{u:0{R.LIS_BITS[rc] // 4}X} via {path}({arg}): got {got}, standard gives {expected}', finding)
 
 
@@ -376,6 +380,17 @@ def _np_ref68(w):
     return np.ldexp(m.astype(np.float64), e.astype(np.int32))
 
 
+def _np_canon68(w):
+    """the normalised code-68 words (written from the format: mantissa in [1/2, 1) resp. [-1, -1/2), or the smallest
+    exponent, or the zero word 0x40000000)"""
+    s = (w >> 31) & 1
+    E = (w >> 23) & 0xFF
+    F = w & 0x7FFFFF
+    pos = (s == 0) & ((F >= (1 << 22)) | ((E == 0) & (F != 0)) | ((E == 128) & (F == 0)))
+    neg = (s == 1) & (((F >= 1) & (F <= (1 << 22))) | ((E == 255) & (F > (1 << 22))))
+    return pos | neg
+
+
 def _sweep68_chunk(job):
     try:
         return _sweep68_chunk_(job)
@@ -430,6 +445,14 @@ def _sweep68_chunk_(job):
         back = _np_ref68(w2).view(np.uint64)
         want = ref if idx is None else ref[idx]
         bad = np.nonzero(back != want)[0]
+        # canonical-word property: to68(from68(w)) == w exactly for the canonical (normalised) words
+        w_in = w if idx is None else w[idx]
+        fixed_bad = np.nonzero((w2 == w_in) != _np_canon68(w_in))[0]
+        for i in fixed_bad[:20]:
+            u = int(w_in[i])
+            fails.append(({'op': 'rt68', 'u': u, 'impl': name},
+                          f'{name}: to68(from68(0x{u:08X})) = 0x{int(w2[i]):08X}; the word is '
+                          f'{"canonical" if bool(_np_canon68(w_in[i:i+1])[0]) else "not canonical"}', None))
         for i in bad[:20]:
             u = int(w[i] if idx is None else w[idx[i]])
             fails.append(({'op': 'rt68', 'u': u, 'impl': name},
@@ -848,6 +871,10 @@ def replay(ctx, rec):
             w2 = M[n].to68(M[n].from68(u))
             if R.lis68(w2) != R.lis68(u):
                 msgs.append(f'{n}: to68(from68(0x{u:08X})) = 0x{w2:08X} decodes to a different value')
+            import numpy as np
+            canon = bool(_np_canon68(np.array([u], dtype=np.uint64))[0])
+            if (w2 == u) != canon:
+                msgs.append(f'{n}: to68(from68(0x{u:08X})) = 0x{w2:08X}; the word is {"canonical" if canon else "not canonical"}')
         return (not msgs), ('; '.join(msgs) or 'round trip gives an equivalent word')
     if op == 'fixedlen':
         return True, 'see run'
